@@ -13,6 +13,7 @@ def dispatch (line : String) : String :=
   | "c12" :: rest => (handleC12 rest).getD "err|bad-request"
   | "c14" :: rest => (handleC14 rest).getD "err|bad-request"
   | "c17" :: rest => (handleC17 rest).getD "err|bad-request"
+  | "c19" :: rest => (handleC19 rest).getD "err|bad-request"
   | _ => "err|unknown-command"
 
 partial def loop (h : IO.FS.Stream) (out : IO.FS.Stream) : IO Unit := do
